@@ -34,10 +34,14 @@ def templates(rng):
         "let A := 1, 2; let B := A 10 add, A 20 add; A B", "let add := 5; add", "let A := 1; if (A 1 ?eq) then (A 1 add) else (A)",
         "E (|A| E (|B| E (|C| A B C)))", "{{{7}}} (|F| F (|G| G (|H| H)))", "let F := {1, 2}; [F]", "?{1} (|F| F)",
         "let X := 3; {X} (|F| let X2 := 4; F X2)", "let A := 1; {A} {A} (|F G| F G add)",
+        # binders with an empty body: still a scope of their own
+        "1 (|A|)", "1 2 (|A B|)", "let A := 1; 2 (|A|) A", "1 2 (|A|) (|A|)", "1 ?(|A|) 5", "1 !(|A|) 5", "1 [|A|]", "1 {|A|} apply",
+        "let A := 1; 2 ?(|A|) A", "1 (|A| (|A|))",
         # ill scoped
         "A", "A let A := 1;", "[let A := 1;] A", "(1, let A := 1;) A", "(let A := 1; || 2) A", "?(let A := 1;) A", "!(let A := 1;) A",
         "(let A := 1;)? A", "if (1) then (let A := 1;) else (2) A", "1 (let A := 2; == 3) A", "(let A := 1;)* A", "let A := 1; let A := 2;",
         "(|A A| A)", "1 (|A| let A := 2;)", "let A := 1; (let A := 2;)", "{A}", "{|X| Y}", "let A := {B}; let B := 1;", "(|A| B)",
+        "1 (|A|) A", "1 ?(|A|) A", "1 [|A|] drop A", "1 2 (|A B|) B", "1 {|A|} apply A",
         "let A := 1; {let A := 2; let A := 3;}", "E (|A| E) A", "[|A| A] A", "{let A := 1;} A", "let F := {|X| X}; X",
     ]
     out = []
